@@ -102,3 +102,126 @@ class AttributeRoundTrip(SeqCheck):
         from pyvc import models as m
         m.dict_set(ex_, st, self.attrib, args[0], args[1])
         return NONE
+
+
+def element_with_children(b, name):
+    """lxml element modelled as an object with a text member and a map child-tag -> child element.
+
+    find(tag) = the child stored under tag or None, SubElement(node, tag) adds a new child with text None,
+    remove(child) deletes the entry of the child's tag.  Several children with one tag are not modelled (the text
+    properties under contract address the first child of a tag and never create a second one)."""
+    st = b.st
+    children = b.obj(f'{name}.children')
+    st.assume(z3.Select(st.get_arr('C'), children.e) == b.ex.ctx.builtin_class_ids['dict'])
+    st.assume(z3.Select(st.get_arr('DN'), children.e) >= 0)
+    k = z3.Const('k!ch', Val)
+    dk, dv = z3.Select(st.get_arr('DK'), children.e), z3.Select(st.get_arr('DV'), children.e)
+    # every stored child is a pre-existing element object whose tag is its key
+    st.assume(z3.ForAll([k], z3.Implies(z3.Select(dk, k), z3.And(
+        Val.is_ref(z3.Select(dv, k)), Val.oid(z3.Select(dv, k)) > 0, Val.oid(z3.Select(dv, k)) < 10 ** 9,
+        z3.Select(st.get_arr('f:tag'), Val.oid(z3.Select(dv, k))) == k))))
+    node = b.obj(name, cls='LxmlElement', children=children, text=b.any(f'{name}.text', maybe_none=True))
+    st.assume(z3.ForAll([k], z3.Implies(z3.Select(dk, k), z3.And(Val.oid(z3.Select(dv, k)) != node.e,
+                                                                 Val.oid(z3.Select(dv, k)) != children.e))))
+    b.distinct(node, children)
+    return node, children
+
+
+@register
+class NodeTextRoundTrip(SeqCheck):
+    id = 'C05.node_text_roundtrip'
+    prop = 'C05'
+    targets_list = (f'{XS}:NodeTextProperty.update_xml_value', f'{XS}:NodeTextProperty.get_py_value_from_node')
+    doc = ('text-valued element properties (NodeTextProperty and subclasses): writing a present value v creates / reuses '
+           'the child element of the property and sets its text to to_xml(v), reading it back gives v (converter lemma); '
+           'an absent optional value removes the child and reads back as None; a missing mandatory value with a minimum '
+           'length is refused without changing the node; children with other tags and the node\'s own text are untouched; '
+           'writing the re-read value again leaves the node as it is')
+    trusted = ('lxml find / SubElement / remove behave like a map tag -> first child', 'converter lemma to_py(to_xml(v)) == v (C18)')
+    optional_fields = ('text',)
+
+    def script(self, run, ex, st, b):
+        from pyvc import models as m
+        self.node, self.children = element_with_children(b, 'node')
+        qn = b.obj('sub_element_name', cls='QName')     # a QName object (always truthy)
+        name = vany(Val.ref(qn.e))
+        conv = b.obj('converter')
+        self.optional = b.bool('is_optional')
+        self.minlen = b.int('min_length')
+        st.assume(self.minlen.e >= 0)
+        prop = b.obj('self', cls=(XS, 'NodeTextProperty'), _sub_element_name=name, _local_var_name=b.str('local_var_name'),
+                     _converter=conv, _is_optional=self.optional, _min_length=self.minlen)
+        inst = b.obj('instance')
+        v = b.any('stored_value', maybe_none=True)
+        b.distinct(prop, inst, self.node, self.children, conv, qn)
+        st.assume(z3.Implies(z3.Not(Val.is_none(v.e)), z3.And(TOPY(TOXML(v.e)) == v.e, Val.is_str(TOXML(v.e)))))
+        mand = b.bool('MANDATORY_VALUE_CHECKING')
+        ex.ctx.module_constants = dict(getattr(ex.ctx, 'module_constants', {}))
+        self.v = v
+        key = name.e
+
+        def find(ex_, s, args, kwargs):
+            d = self.children
+            has = m.dict_has(s, d, args[0])
+            return vany(z3.If(has, m.dict_val(s, d, args[0]), Val.none), maybe_none=True)
+
+        def sub_element(ex_, s, args, kwargs):
+            child = s.alloc('LxmlElement')
+            s.write_field(child, 'tag', args[1])
+            s.write_field(child, 'text', NONE)
+            m.dict_set(ex_, s, self.children, args[1], child)
+            return child
+
+        def remove(ex_, s, args, kwargs):
+            c = ex_.concrete_kind(s, args[0], ('ref',))
+            tag = s.read_field(c, 'tag')
+            m.dict_del(ex_, s, self.children, tag)
+            return NONE
+        ex.ctx.callees.update({
+            'getattr': Pure(lambda e, s, a, k: v, name='getattr(instance, local_var_name) -> stored value'),
+            '*.to_xml': Pure(lambda e, s, a, k: vany(TOXML(s.box(a[0]))), name='converter.to_xml (C18)'),
+            '*.to_py': Pure(lambda e, s, a, k: vany(TOPY(s.box(a[0]))), name='converter.to_py (C18)'),
+            '*.find': Pure(find, name='lxml node.find(tag): first child with that tag or None', trusted=True),
+            'lxml.etree.SubElement': Pure(sub_element, name='etree.SubElement(node, tag): new child', trusted=True),
+            'etree.SubElement': Pure(sub_element, name='etree.SubElement(node, tag): new child', trusted=True),
+            '*.remove': Pure(remove, name='lxml node.remove(child)', trusted=True),
+        })
+        ex.ctx.inline.add(f'{XS}:_XmlStructureBaseProperty.is_optional')
+        ex.ctx.inline.add(f'{XS}:_ElementBase._get_element_by_child_name')
+        ex.ctx.module_constants[f'{XS}:MANDATORY_VALUE_CHECKING'] = True
+        outs = []
+        dk0, dv0 = z3.Select(st.get_arr('DK'), self.children.e), z3.Select(st.get_arr('DV'), self.children.e)
+        text0 = z3.Select(st.get_arr('f:text'), self.node.e)
+        present = z3.Not(Val.is_none(v.e))
+
+        def child_text(s):
+            dv = z3.Select(s.get_arr('DV'), self.children.e)
+            return z3.Select(s.get_arr('f:text'), Val.oid(z3.Select(dv, key)))
+        for s1, r1 in run(st, self.targets_list[0], prop, [inst, self.node]):
+            if isinstance(r1, Raise):
+                ex.oblige(s1, 'write_refused_only_for_missing_mandatory_value', z3.And(
+                    z3.BoolVal(r1.exc.cls == 'ValueError'), Val.is_none(v.e), z3.Not(self.optional.e), self.minlen.e > 0))
+                ex.oblige(s1, 'refused_write_leaves_node_unchanged', z3.And(
+                    z3.Select(s1.get_arr('DK'), self.children.e) == dk0, z3.Select(s1.get_arr('DV'), self.children.e) == dv0))
+                continue
+            dk1, dv1 = z3.Select(s1.get_arr('DK'), self.children.e), z3.Select(s1.get_arr('DV'), self.children.e)
+            kq = z3.Const('kq', Val)
+            ex.oblige(s1, 'other_children_untouched', z3.ForAll([kq], z3.Implies(kq != key, z3.And(
+                z3.Select(dk1, kq) == z3.Select(dk0, kq), z3.Select(dv1, kq) == z3.Select(dv0, kq)))))
+            ex.oblige(s1, 'own_text_of_the_node_untouched', z3.Select(s1.get_arr('f:text'), self.node.e) == text0)
+            ex.oblige(s1, 'child_present_when_value_present', z3.Implies(present, z3.And(
+                z3.Select(dk1, key), child_text(s1) == TOXML(v.e))))
+            ex.oblige(s1, 'absent_optional_value_removes_the_child', z3.Implies(z3.And(z3.Not(present), self.optional.e),
+                                                                                  z3.Not(z3.Select(dk1, key))))
+            ex.oblige(s1, 'existing_child_is_reused', z3.Implies(z3.And(present, z3.Select(dk0, key)),
+                                                                   z3.Select(dv1, key) == z3.Select(dv0, key)))
+            for s2, r2 in run(s1, self.targets_list[1], prop, [inst, self.node]):
+                if isinstance(r2, Raise):
+                    ex.oblige(s2, 'read_never_raises', z3.BoolVal(False), info={'exc': repr(r2.exc)})
+                    continue
+                ex.oblige(s2, 'read_back_equals_written_value', z3.Implies(z3.Or(present, self.optional.e), s2.box(r2) == v.e))
+                ex.oblige(s2, 'read_does_not_change_node', z3.And(
+                    z3.Select(s2.get_arr('DK'), self.children.e) == dk1, z3.Select(s2.get_arr('DV'), self.children.e) == dv1,
+                    z3.Implies(z3.Select(dk1, key), child_text(s2) == child_text(s1))))
+                outs.append((s2, ('ret', r2)))
+        return outs
